@@ -415,6 +415,14 @@ def run(ctx):
                 for k, raw in dmap[s].items():
                     dist['fallback_checks'] += 1
                     if (s, k) in lower_present:
+                        v = lower_present[(s, k)]
+                        if not (type(v) is str and '\n' in v):
+                            has = cp.has_section(s) and cp.has_option(s, k)
+                            if not (has and cp.get(s, k, raw=True) == str(v).strip()):
+                                found_input = True
+                                ctx.fail('the value of the user file does not win over the packaged default',
+                                         {'config': conf_json, 'section': s, 'option': k, 'user_value': repr(v), 'fill_defaults': fill,
+                                          'got': cp.get(s, k, raw=True) if has else None})
                         continue
                     has = cp.has_section(s) and cp.has_option(s, k)
                     if fill and not (has and cp.get(s, k, raw=True) == raw):
@@ -542,19 +550,18 @@ def run(ctx):
     # ---- int <-> str limit, on the implementation ---------------------------------------------------------------
     for z, zl in ((10 ** 4300 - 1, '(10 ^ 4300 - 1)%Z'), (10 ** 4300, '(10 ^ 4300)%Z'), (-(10 ** 4300), '(- 10 ^ 4300)%Z')):
         r = attempt(lambda: P.update_params({'seed': z}, section_name='conformer_generation'))
-        add_case('int_limit', 'lim/%d' % len(cases), 'Bool.eqb (is_ok (py_str (VInt %s))) %s' % (zl, core.blit(r[0] == 'ok')),
-                 {'z': zl, 'impl': r[0]})
+        # printing 4300 digits inside Coq takes ~30 s: the quick tier evaluates the guard of py_str only
+        m = 'is_ok (py_str (VInt %s))' % zl if (r[0] != 'ok' or not ctx.quick) else 'negb (int_limit <=? Z.abs %s)' % zl
+        add_case('int_limit', 'lim/%d' % len(cases), 'Bool.eqb (%s) %s' % (m, core.blit(r[0] == 'ok')), {'z': zl, 'impl': r[0]})
         ctx.count(('lim', zl), True)
 
     for k in cases[:2] + cases[len(cases) // 3:len(cases) // 3 + 2] + cases[-2:]:
         ctx.sample({'case': k[0], 'input_and_implementation_result': payloads[k[0]], 'model_check': k[1][:500]})
     nbad = core.compare_cases(ctx, cases, IMPORTS, 'C20 configuration', payloads, model_expr=mexpr)
     found_input = found_input or nbad > 0
-    import re
-    out = core.coq_eval_raw('List.length (List.filter (fun s => is_unmodelled (classify s)) %s)' % core.listlit([S(x) for x in sorted(lit_strings)]),
-                            IMPORTS, os.path.join(ctx.workdir, 'raw'))
-    m = re.search(r'=\s*(\d+)%nat', out)
-    dist['literal_unmodelled'] = int(m.group(1)) if m else -1
+    unm, _ = core.coq_eval_bools([(i, 'is_unmodelled (classify %s)' % S(x)) for i, x in enumerate(sorted(lit_strings))], IMPORTS,
+                                 os.path.join(ctx.workdir, 'unmodelled'))
+    dist['literal_unmodelled'] = sum(1 for v in unm.values() if v)
     ctx.coverage['rule'] = ('cfg: seeded option dictionaries over the 3 sections (0-6 options each; known option names, new names; 20% carry one value of the '
                             '"tricky strings" list, 10% upper-case keys), every stage (file text, read_params with/without defaults, params_to_sections_dict, '
                             'params_to_dicts, 5x5 typed getter queries) compared with the model inside Coq; prop: the round-trip and fallback statements decided '
